@@ -698,3 +698,8 @@ pub fn admission_word(cell: &ActorCell) -> usize {
 pub fn num_children(cell: &ActorCell) -> usize {
     cell.inner.tree.get_children().len()
 }
+
+/// Deliver a supervision event to a cell's supervision port from outside (environment action)
+pub fn inject_supervision(cell: &ActorCell, evt: SupervisionEvent) -> bool {
+    cell.send_supervisor_evt(evt).is_ok()
+}
